@@ -20,6 +20,15 @@ type Decision struct {
 	B     bool
 	V     *big.Int
 	IsVal bool
+	// IsFact: facts learned by a semantic resolution step (term id -> value); recorded so
+	// that replaying a path prefix rebuilds exactly the same terms
+	IsFact bool
+	Facts  []factRec
+}
+
+type factRec struct {
+	ID int
+	V  bool
 }
 
 type workItem struct {
@@ -368,7 +377,7 @@ func (p *Path) decide(c *term.Term, where string) bool {
 	if p.ti < len(p.trail) {
 		d := p.trail[p.ti]
 		p.ti++
-		if d.IsVal {
+		if d.IsVal || d.IsFact {
 			panic(engineErr{"trail mismatch (bool expected) at " + where})
 		}
 		if d.B {
@@ -494,7 +503,7 @@ func (p *Path) concretizeBig(t *term.Term, where string) *big.Int {
 	if p.ti < len(p.trail) {
 		d := p.trail[p.ti]
 		p.ti++
-		if !d.IsVal {
+		if !d.IsVal || d.IsFact {
 			panic(engineErr{"trail mismatch (value expected) at " + where})
 		}
 		p.addPC(p.C.Eq(t, p.C.Const(d.V)))
@@ -769,6 +778,10 @@ type Exec struct {
 	FeasTimeout       time.Duration
 	NLFeasTimeout     time.Duration
 	MaxUnknownFeas    int
+	RepoDir           string
+	asmOnce           sync.Once
+	asmProg           *asmProgram
+	asmErr            error
 	NoAbstract        bool
 	SampleTries       int
 	NoMerge           bool
@@ -1159,11 +1172,30 @@ func (p *Path) resolveSem(t *term.Term) *term.Term {
 	if p.spec > 0 {
 		return p.C.Resolve(t)
 	}
+	if len(p.C.IteConds(p.C.Resolve(t), 1)) == 0 {
+		return p.C.Resolve(t)
+	}
+	if p.ti < len(p.trail) {
+		d := p.trail[p.ti]
+		p.ti++
+		if !d.IsFact {
+			panic(engineErr{"trail mismatch (facts expected) in resolveSem"})
+		}
+		for _, f := range d.Facts {
+			ct := p.C.ByID(f.ID)
+			if ct == nil {
+				panic(engineErr{"trail mismatch (unknown term id) in resolveSem"})
+			}
+			p.C.LearnValue(ct, f.V)
+		}
+		return p.C.Resolve(t)
+	}
+	var facts []factRec
 	for round := 0; round < 4; round++ {
 		t = p.C.Resolve(t)
 		conds := p.C.IteConds(t, 12)
 		if len(conds) == 0 {
-			return t
+			break
 		}
 		learned := false
 		for _, c := range conds {
@@ -1183,18 +1215,22 @@ func (p *Path) resolveSem(t *term.Term) *term.Term {
 			}
 			if r == term.Unsat {
 				p.C.LearnValue(c, guess)
+				facts = append(facts, factRec{c.ID, guess})
 				learned = true
 			} else if !p.hasModel {
 				r2, _, _ := p.S.CheckT(p.feasTimeout(), false, false, c)
 				if r2 == term.Unsat {
 					p.C.LearnValue(c, false)
+					facts = append(facts, factRec{c.ID, false})
 					learned = true
 				}
 			}
 		}
 		if !learned {
-			return t
+			break
 		}
 	}
+	p.trail = append(p.trail[:p.ti], Decision{IsFact: true, Facts: facts})
+	p.ti++
 	return p.C.Resolve(t)
 }
